@@ -398,7 +398,7 @@ func (t *StreamUnderlay) readOneSegment() (*segment, error) {
 		metrics.UploadBytes.Add(int64(len(encryptedMeta)))
 	}
 	isNewSessionReplay := false
-	if streamReplayCache.IsDuplicate(encryptedMeta[:cipher.DefaultOverhead], replay.EmptyTag) {
+	if streamReplayCache.IsDuplicate(replaySignatureInput(encryptedMeta, firstRead), replay.EmptyTag) {
 		if firstRead {
 			replay.NewSession.Add(1)
 			isNewSessionReplay = true
